@@ -136,6 +136,15 @@ class Battle:
         else: self.pkt('Map', struct.pack('<iqi', 1, arena_id, len(nb)) + nb + bytes(65))
         self.expect['map_raw'] = name
     def stream(self): return b''.join(self.out)
+    def nested_set_field(self, eid, ename, pname, fname, value):
+        """one field of a FIXED_DICT client property set by a nested packet; -> True if emitted"""
+        if 'NestedProperty' not in self.ids: return False
+        names = [p[0] for p in self.md.ent[ename]['client']]; t = strip_user(dict(self.md.ent[ename]['client'])[pname])
+        if t[0] != 'dict': return False
+        fns = [n for n, _ in t[1]]
+        bits = synth.pack_bits([(1, 1), (names.index(pname), synth.bits_required(len(names))), (0, 1), (fns.index(fname), synth.bits_required(len(fns)))])
+        payload = bits + gen_types.wire_of(dict(t[1])[fname], value)
+        self.pkt('NestedProperty', struct.pack('<IbB', eid, 0, len(payload)) + bytes(3) + payload); return True
 
 
 def wows_versions():
@@ -166,7 +175,7 @@ def roster(consts, ids, extra=None):
     return out
 
 
-def build_wows(v, rng, join=True, battle_end=True, map_name='spaces/16_OC_bees_to_honey', n_players=3, roster_extra=None, recreate=False, dumps=None, extreme=False, reuse=False):
+def build_wows(v, rng, join=True, battle_end=True, map_name='spaces/16_OC_bees_to_honey', n_players=3, roster_extra=None, recreate=False, dumps=None, extreme=False, reuse=False, twins=False):
     """-> (Battle, version string for the open block).  v: a directory name under clients/wows/versions"""
     ver = v.split('_'); new = tuple(map(int, ver[:3])) >= (12, 6, 0)
     d = os.path.join(common.REPO, 'replay_unpack', 'clients', 'wows', 'versions', v)
@@ -186,6 +195,18 @@ def build_wows(v, rng, join=True, battle_end=True, map_name='spaces/16_OC_bees_t
                 set_path(val, ['ribbons'], [{n: ((3 if n == 'ribbonId' else 2) if strip_user(x)[0] in 'ui' else default_value(x, rng)) for n, x in rt[1]}])
         return val
     b.cell_player(A, {'privateVehicleState': ribbons})
+    # a nested ELEMENT update with data (the list branch of the nested reader): the one ribbon record of the recording player is replaced by
+    # {ribbonId 3, count 4}; where the summary takes its ribbons from that property, the count must be 4
+    pvs = dict(b.md.ent['Avatar']['client']).get('privateVehicleState')
+    rft = field_type(pvs, ['ribbons']) if pvs is not None else None
+    if rft is not None and strip_user(rft)[0] == 'array' and strip_user(strip_user(rft)[1])[0] == 'dict' and 'NestedProperty' in b.ids:
+        rt = strip_user(strip_user(rft)[1]); anames = [p[0] for p in b.md.ent['Avatar']['client']]; pf = [n for n, _ in strip_user(pvs)[1]]
+        rec = {n: ((3 if n == 'ribbonId' else 4) if strip_user(x)[0] in 'ui' else default_value(x, rng)) for n, x in rt[1]}
+        bits = synth.pack_bits([(1, 1), (anames.index('privateVehicleState'), synth.bits_required(len(anames))), (1, 1), (pf.index('ribbons'), synth.bits_required(len(pf))),
+                                (0, 1), (0, synth.bits_required(1))])
+        payload = bits + gen_types.wire_of(strip_user(rft)[1], rec)
+        if len(payload) < 256:
+            b.pkt('NestedProperty', struct.pack('<IbB', A, 0, len(payload)) + bytes(3) + payload); b.expect['avatar_ribbons'] = {3: 4}
     if cell_first:
         b.base_player(A)
         b.map(777, map_name)
@@ -228,6 +249,14 @@ def build_wows(v, rng, join=True, battle_end=True, map_name='spaces/16_OC_bees_t
         b.expect['vehicles'][vid] = None
         b.create(vid, 'Vehicle', [('crewModifiersCompactParams', rec)] if 'crewModifiersCompactParams' in vnames else [])
     for vid in (V1, V2): vehicle(vid)
+    if twins and 'crewModifiersCompactParams' in vnames and isinstance(b.expect['vehicles'].get(V1), dict) and 'paramsId' in b.expect['vehicles'][V1]:
+        # two ships whose crew records are BYTE-IDENTICAL, then a nested update of one field of the first ship's record: the second ship keeps its own
+        import copy as copy_
+        twin = copy_.deepcopy(b.expect['vehicles'][V1])
+        b.create(V2, 'Vehicle', [('crewModifiersCompactParams', lambda t, val: copy_.deepcopy(twin))]); b.expect['vehicles'][V2] = copy_.deepcopy(twin)
+        pt = field_type(dict(b.md.ent['Vehicle']['client'])['crewModifiersCompactParams'], ['paramsId'])
+        if pt is not None and strip_user(pt)[0] in 'ui' and b.nested_set_field(V1, 'Vehicle', 'crewModifiersCompactParams', 'paramsId', 77):
+            b.expect['vehicles'][V1]['paramsId'] = 77
     if recreate:
         # ids that are created, updated and created AGAIN (with another value, with a partial property set, as another type): afterwards only
         # the last creation and what followed it may be visible - through the version's own controller (create_entity / entities)
@@ -306,6 +335,10 @@ def build_wows(v, rng, join=True, battle_end=True, map_name='spaces/16_OC_bees_t
         r3 = roster(consts, [0], extra={'name': 'renamed'})
         b.call(A, 'Avatar', 'onGameRoomStateChanged', [pk(r3) if i == 0 else pk([]) for i in range(len(gr))])
         merge(r3)
+        # the same record, another one, the first one again - byte for byte (A, B, A): the roster is the merge of ALL messages in stream order
+        for nm in ('first', 'second', 'first'):
+            r4 = roster(consts, [1], extra={'name': nm})
+            b.call(A, 'Avatar', 'onGameRoomStateChanged', [pk(r4) if i == 0 else pk([]) for i in range(len(gr))]); merge(r4)
     if new:
         # the post-battle statistics packet (only the renumbered table has it); 12_7_0 unpacks it into the summary, the others ignore it
         priv = [[1, 2] if nm in ('init_economics', 'common_economics', 'subtotal_economics') else i for i, nm in enumerate(getattr(consts, 'PLAYER_PRIVATE_RESULTS', ['a', 'b']))]
